@@ -8,6 +8,8 @@ extern "C" {
 void vcrash_arm(long crash_at, int partial, int fd);
 void vcrash_disarm(void);
 long vcrash_count(void);
+/* observer called before every wrapped libc call of this process (not re-entered) */
+void vcrash_set_hook(void (*fn)(const char *call));
 #ifdef __cplusplus
 }
 #endif
